@@ -856,6 +856,24 @@ func mkStmts(n int, r *vh.Rng) []stmtDef {
 	return s
 }
 
+// mkStmtsNear: n distinct texts, variants (near.go) of one or two statements; the members of a group have the
+// same bind markers, so nothing but the text tells them apart.
+func mkStmtsNear(n int, r *vh.Rng) []stmtDef {
+	ngroups := 1 + r.Intn(2)
+	var s []stmtDef
+	for g := 0; g < ngroups; g++ {
+		m := n / ngroups
+		if g == 0 {
+			m = n - m*(ngroups-1)
+		}
+		nc := r.Intn(3)
+		for _, v := range nearPick(r, m) {
+			s = append(s, stmtDef{text: nearText(g, nc, v), ncols: nc})
+		}
+	}
+	return s
+}
+
 // probes: once the callers of the run have returned, every (host, statement) they executed is executed once
 // more with a background context. A correct driver answers each of them (the scripted server answers every
 // frame); an in-flight cache entry that nobody completes blocks exactly these executions for ever.
@@ -926,14 +944,28 @@ func (rn *runner) emit(w *world, wg *sync.WaitGroup, class string) bool {
 }
 
 // random: N callers, overlapping statements, random fates.
-func (rn *runner) random() {
+func (rn *runner) random() { rn.randomWith(false) }
+
+// randomNear: the same over NEAR-COLLIDING statement texts (variants of one or two statements that differ only
+// in whitespace, letter case, a trailing semicolon, unicode normalisation form, a NUL / separator-like byte, or
+// after a long common prefix): each text is its own statement for the server, which issues ids per text.
+func (rn *runner) randomNear() { rn.randomWith(true) }
+
+func (rn *runner) randomWith(near bool) {
 	r := rn.r
 	nst := 1 + r.Intn(5)
 	caps := []int{1, 1, 2, 2, 3, 1000, 1000, 0}
-	c := worldCfg{nhosts: 1 + r.Intn(2), nconns: 1 + r.Intn(2), capacity: caps[r.Intn(len(caps))], stmts: mkStmts(nst, r),
+	c := worldCfg{nhosts: 1 + r.Intn(2), nconns: 1 + r.Intn(2), capacity: caps[r.Intn(len(caps))],
 		stableID: r.Intn(3) == 0}
+	if near {
+		c.stmts = mkStmtsNear(2+r.Intn(6), r)
+		nst = len(c.stmts)
+		c.capacity = []int{1000, 1000, 0, 0, 3, 2}[r.Intn(6)]
+	} else {
+		c.stmts = mkStmts(nst, r)
+	}
 	if r.Intn(4) == 0 {
-		c.ks = "ks7"
+		c.ks = []string{"ks7", "ks7", "Ks_7", "s", "SELECT"}[r.Intn(5)]
 	}
 	w, err := newWorld(r, c)
 	if err != nil {
@@ -941,6 +973,9 @@ func (rn *runner) random() {
 		return
 	}
 	pfail := []int{0, 0, 10, 30, 60}[r.Intn(5)]
+	if near {
+		pfail = []int{0, 0, 0, 10}[r.Intn(4)]
+	}
 	slow := r.Intn(3) == 0
 	for _, n := range w.nodes {
 		for j := range w.stmts {
@@ -1012,7 +1047,11 @@ func (rn *runner) random() {
 			}
 		}()
 	}
-	rn.emit(w, &wg, fmt.Sprintf("random/hosts%d/cap%d/cancel%d", c.nhosts, c.capacity, cancelPct))
+	cls := "random"
+	if near {
+		cls = "random-near"
+	}
+	rn.emit(w, &wg, fmt.Sprintf("%s/hosts%d/cap%d/cancel%d", cls, c.nhosts, c.capacity, cancelPct))
 }
 
 // randCtx gives the call a context that becomes done at some point.
@@ -1426,6 +1465,105 @@ func (rn *runner) sameStatementBurst() {
 	rn.emit(w, &wg, fmt.Sprintf("burst/fails=%v", fails))
 }
 
+// nearCollide: a group of near-colliding statement texts (near.go) through one Session.
+// Phase 1: every text is executed once, one after the other, in a random order (each must be PREPAREd before its
+// first EXECUTE, and the EXECUTE must carry the id the server issued for exactly that text); phase 2: concurrent
+// callers over the group, queries and batches that mix members; phase 3: the server forgets every statement,
+// then every text is executed again (UNPREPARED must evict the entry of THAT text and re-PREPARE THAT text).
+// The scripted server issues ids as an injective function of the text (and PREPARE number); Obs checks every
+// EXECUTE / BATCH id against the PREPAREs of the entry's own text.
+func (rn *runner) nearCollide() {
+	r := rn.r
+	c := worldCfg{nhosts: 1 + r.Intn(2), nconns: 1 + r.Intn(2), capacity: []int{1000, 0, 1000, 2}[r.Intn(4)],
+		stmts: mkStmtsNear(3+r.Intn(5), r), stableID: r.Intn(3) == 0}
+	if r.Intn(3) == 0 {
+		c.ks = []string{"ks7", "Ks_7", "s", "SELECT"}[r.Intn(4)]
+	}
+	w, err := newWorld(r, c)
+	if err != nil {
+		rn.out.Case("trace Z:no-session", "accept", "conc/no-session", true)
+		return
+	}
+	n := len(w.stmts)
+	q := func(host, j int) *callSpec {
+		return &callSpec{host: host, entries: []entrySpec{{stmt: j, nvals: w.stmts[j].ncols}}}
+	}
+	perm := func() []int {
+		p := make([]int, n)
+		for i := range p {
+			p[i] = i
+		}
+		for i := n - 1; i > 0; i-- {
+			j := r.Intn(i + 1)
+			p[i], p[j] = p[j], p[i]
+		}
+		return p
+	}
+	var withCols []int
+	for j, st := range w.stmts {
+		if st.ncols > 0 {
+			withCols = append(withCols, j)
+		}
+	}
+	var phase1, phase3 []*callSpec
+	for _, j := range perm() {
+		phase1 = append(phase1, q(r.Intn(c.nhosts), j))
+	}
+	for _, j := range perm() {
+		phase3 = append(phase3, q(r.Intn(c.nhosts), j))
+	}
+	var phase2 [][]*callSpec
+	for g, ng := 0, 2+r.Intn(5); g < ng; g++ {
+		var calls []*callSpec
+		for i, m := 0, 1+r.Intn(4); i < m; i++ {
+			if len(withCols) > 0 && r.Intn(3) == 0 {
+				cs := &callSpec{batch: true, host: r.Intn(c.nhosts)}
+				for k, e := 0, 1+r.Intn(3); k < e; k++ {
+					j := withCols[r.Intn(len(withCols))]
+					cs.entries = append(cs.entries, entrySpec{stmt: j, nvals: w.stmts[j].ncols})
+				}
+				calls = append(calls, cs)
+			} else {
+				calls = append(calls, q(r.Intn(c.nhosts), r.Intn(n)))
+			}
+		}
+		phase2 = append(phase2, calls)
+	}
+	forget := r.Intn(4) != 0
+	var wg sync.WaitGroup
+	wg.Add(1)
+	go func() {
+		defer wg.Done()
+		for _, cs := range phase1 {
+			w.doCall(cs)
+		}
+		var wg2 sync.WaitGroup
+		for _, calls := range phase2 {
+			calls := calls
+			wg2.Add(1)
+			go func() {
+				defer wg2.Done()
+				for _, cs := range calls {
+					w.doCall(cs)
+				}
+			}()
+		}
+		wg2.Wait()
+		if forget {
+			w.h.mu.Lock()
+			for _, nd := range w.nodes {
+				nd.registered = map[string]int{}
+				w.nforget++
+			}
+			w.h.mu.Unlock()
+		}
+		for _, cs := range phase3 {
+			w.doCall(cs)
+		}
+	}()
+	rn.emit(w, &wg, fmt.Sprintf("near-collide/hosts%d/cap%d/texts%d/forget=%v", c.nhosts, c.capacity, n, forget))
+}
+
 // sequential: one caller at a time. The connection-level Lean machine (PConn + LRU + the replayed server
 // script) predicts the history exactly; op `seq`, answer = the observed history.
 type seqSpec struct {
@@ -1434,6 +1572,22 @@ type seqSpec struct {
 	cols     []int
 	pf, xf   string
 	calls    []*callSpec
+	txt      []string // optional: "<group>.<variant>" per statement (near-colliding texts, near.go)
+}
+
+func (sp *seqSpec) stmts() []stmtDef {
+	var stmts []stmtDef
+	for j, nc := range sp.cols {
+		var g, v int
+		if j < len(sp.txt) {
+			if _, err := fmt.Sscanf(sp.txt[j], "%d.%d", &g, &v); err == nil {
+				stmts = append(stmts, stmtDef{text: nearText(g, nc, v), ncols: nc})
+				continue
+			}
+		}
+		stmts = append(stmts, stmtWithCols(j, nc))
+	}
+	return stmts
 }
 
 func stmtWithCols(j, nc int) stmtDef {
@@ -1464,7 +1618,11 @@ func (sp *seqSpec) line() string {
 	if sp.stable {
 		ids = "stable"
 	}
-	return fmt.Sprintf("seq cap=%d ids=%s cols=%s pf=%s xf=%s %s", sp.capacity, ids, strings.Join(cols, ","), sp.pf, sp.xf, strings.Join(words, " "))
+	txt := ""
+	if len(sp.txt) > 0 {
+		txt = " txt=" + strings.Join(sp.txt, ",")
+	}
+	return fmt.Sprintf("seq cap=%d ids=%s cols=%s pf=%s xf=%s%s %s", sp.capacity, ids, strings.Join(cols, ","), sp.pf, sp.xf, txt, strings.Join(words, " "))
 }
 
 func parseSeq(op string) (*seqSpec, error) {
@@ -1486,6 +1644,8 @@ func parseSeq(op string) (*seqSpec, error) {
 				sp.pf = v
 			case "xf":
 				sp.xf = v
+			case "txt":
+				sp.txt = strings.Split(v, ",")
 			}
 			continue
 		}
@@ -1514,11 +1674,7 @@ func runSeqSpec(sp *seqSpec, outdir, tag string) (op string, hung string, err er
 			nh = cs.host + 1
 		}
 	}
-	var stmts []stmtDef
-	for j, nc := range sp.cols {
-		stmts = append(stmts, stmtWithCols(j, nc))
-	}
-	w, err := newWorld(nil, worldCfg{nhosts: nh, nconns: 1, capacity: sp.capacity, stmts: stmts, stableID: sp.stable})
+	w, err := newWorld(nil, worldCfg{nhosts: nh, nconns: 1, capacity: sp.capacity, stmts: sp.stmts(), stableID: sp.stable})
 	if err != nil {
 		return "", "", err
 	}
@@ -1564,6 +1720,18 @@ func (rn *runner) sequential() {
 	sp := &seqSpec{capacity: []int{1, 1, 2, 2, 3, 1000, 0}[r.Intn(7)], stable: r.Intn(3) == 0}
 	for j := 0; j < nst; j++ {
 		sp.cols = append(sp.cols, r.Intn(4))
+	}
+	near := r.Intn(3) == 0
+	if near {
+		// near-colliding texts: variants of one statement (same bind markers)
+		nst = 2 + r.Intn(4)
+		sp.cols = nil
+		nc := r.Intn(3)
+		for _, v := range nearPick(r, nst) {
+			sp.cols = append(sp.cols, nc)
+			sp.txt = append(sp.txt, fmt.Sprintf("0.%d", v))
+		}
+		sp.capacity = []int{1000, 0, 1000, 2, 3}[r.Intn(5)]
 	}
 	nhosts := 1 + r.Intn(2)
 	pf := make([]byte, 60)
@@ -1620,7 +1788,11 @@ func (rn *runner) sequential() {
 	if hung != "" {
 		rn.nhang++
 	}
-	rn.out.Case(sp.line(), trimTrace(op), fmt.Sprintf("seq/hosts%d/cap%d", nhosts, sp.capacity), true)
+	cls := "seq"
+	if near {
+		cls = "seq-near"
+	}
+	rn.out.Case(sp.line(), trimTrace(op), fmt.Sprintf("%s/hosts%d/cap%d", cls, nhosts, sp.capacity), true)
 	// the same history is also judged by the specification
 	rn.out.Case(op, "accept", "seq-trace", true)
 	rn.out.Dist["seq-events/unprepared"] += strings.Count(op, ":un/")
@@ -1636,6 +1808,9 @@ func sessionTier(r *vh.Rng, out *vh.Out, outdir string, mult int) {
 		maxHangs = 2
 	}
 	steps := []func(){}
+	for i := 0; i < 12*mult; i++ {
+		steps = append(steps, rn.nearCollide)
+	}
 	for i := 0; i < 6*mult; i++ {
 		steps = append(steps, func() { rn.lostStatement(2+rn.r.Intn(3), true, false) })
 		steps = append(steps, func() { rn.lostStatement(2+rn.r.Intn(3), false, rn.r.Bool()) })
@@ -1658,6 +1833,9 @@ func sessionTier(r *vh.Rng, out *vh.Out, outdir string, mult int) {
 	}
 	for i := 0; i < 150*mult; i++ {
 		steps = append(steps, rn.random)
+	}
+	for i := 0; i < 40*mult; i++ {
+		steps = append(steps, rn.randomNear)
 	}
 	for i := 0; i < 30*mult; i++ {
 		steps = append(steps, rn.evictionInFlight)
